@@ -13,11 +13,25 @@ if [ ! -x "$VERIF_ROOT/.bin/instr" ]; then
 fi
 (
   flock 9
-  "$VERIF_ROOT/.bin/instr" -repo "$VERIF_REPO" -verif "$VERIF_ROOT" -out "$B/gen" >"$B/instr.log" 2>&1 || { cat "$B/instr.log" >&2; exit 2; }
+  SHIMFLAG=""
+  if [ -n "$RACE" ]; then
+    rm -rf "$B/shim-norace"; python3 "$VERIF_ROOT/tools/norace.py" "$VERIF_ROOT/shim/zzvsched" "$B/shim-norace" || exit 2
+    SHIMFLAG="-shim $B/shim-norace"
+    # sync.Pool (used by fmt) hands objects from one goroutine to the next with an acquire/release
+    # pair that orders everything the two goroutines did, and in race mode it drops every 4th Put
+    # at random: an incidental, nondeterministic happens-before edge that hides races.  In the
+    # race build the pool drops every object instead (deterministic, no incidental edges).
+    GOROOT_DIR=$(go env GOROOT)
+    mkdir -p "$B/std"
+    sed 's/runtime_randn(4) == 0/true/' "$GOROOT_DIR/src/sync/pool.go" > "$B/std/pool.go"
+    grep -q 'if true {' "$B/std/pool.go" || { echo "build.sh: cannot neutralise sync.Pool for the race build" >&2; exit 2; }
+    SHIMFLAG="$SHIMFLAG -extra $GOROOT_DIR/src/sync/pool.go=$B/std/pool.go"
+  fi
+  "$VERIF_ROOT/.bin/instr" -repo "$VERIF_REPO" -verif "$VERIF_ROOT" -out "$B/gen$RACE" $SHIMFLAG >"$B/instr.log" 2>&1 || { cat "$B/instr.log" >&2; exit 2; }
   # per-repo go.mod so the replace directive can point at a scratch copy
   sed "s#=> /repo#=> $VERIF_REPO#" "$VERIF_ROOT/harness/go.mod" > "$B/go.mod"
   cp "$VERIF_REPO/go.sum" "$B/go.sum"
   cd "$VERIF_ROOT/harness"
-  go build $RACE -tags verif -overlay "$B/overlay.json" -modfile "$B/go.mod" -o "$B/vharness$RACE" . 2>"$B/build.log" || { cat "$B/build.log" >&2; exit 2; }
+  go build $RACE -tags verif -overlay "$B/overlay$RACE.json" -modfile "$B/go.mod" -o "$B/vharness$RACE" . 2>"$B/build.log" || { cat "$B/build.log" >&2; exit 2; }
 ) 9>"$B/.lock"
 echo "$B/vharness$RACE"
